@@ -6,7 +6,7 @@
    Observation = encoder output, items of the argument iterator up to the first None, two more calls of
    next() after that, and payload_as_text. *)
 From Coq Require Import List NArith Bool.
-From AdltV Require Import Base.Obs Base.Res Base.MachInt Dlt.Args Dlt.Text.
+From AdltV Require Import Base.Obs Base.Res Base.MachInt Dlt.Args Dlt.Text Dlt.Producers.
 Import ListNotations.
 Open Scope N_scope.
 
@@ -24,10 +24,20 @@ Definition sv_of (i : sv_in) : sval :=
   | IStr s => SStr (expand s) | IBytes s => SBytes (expand s) | IAscii s => SAscii (expand s) | IUnit => SUnit
   end.
 
+(* a producer inside the crate (Dlt/Producers.v) with what it was given to encode *)
+Inductive prod_in :=
+| PExportInfo (from_be : bool) (text : list seg)       (* ExportPlugin: one entry of infoTexts; the first exported message has byte order from_be *)
+| PBlfAppText (text : list seg)                        (* blf AppText object, text as handed to dlt_args! *)
+| PCanFrame (frame_id : N) (data : list seg)           (* asc / blf CAN frame *)
+| PAnon (be verbose : bool) (noar : N) (payload : list seg) (rt_us : N)   (* AnonymizePlugin on a log message *)
+| PTextLog                                             (* logcat / generic log line *)
+| PApidInfo (skip_empty : bool) (apid : bytes) (desc : list seg).   (* GET_LOG_INFO message for a new tag / BusMapping *)
+
 Inductive enc_in :=
 | EPayload (s : list seg)
 | EFromArgs (args : list (N * bool * list seg))
-| ESerde (vals : list sv_in).
+| ESerde (vals : list sv_in)
+| EProduced (p : prod_in).
 
 Record case_C18 := mkcase {
   c_verbose : bool; c_be : bool; c_noar : N;       (* noar is not read by the iterator *)
@@ -90,14 +100,37 @@ Definition apply_cut (p : bytes) (cut : option N) : bytes :=
 (* ---- encoders *)
 Definition mk_arg (x : N * bool * list seg) : arg :=
   {| a_ti := fst (fst x); a_be := snd (fst x); a_raw := expand (snd x) |}.
-Definition encode (e : enc_in) : otree * option bytes :=
+(* the message a producer builds: Ok None = it writes no message *)
+Definition produce (p : prod_in) : res (option bmsg) :=
+  match p with
+  | PExportInfo from_be text => Ok (export_info_text_msg from_be (expand text))
+  | PBlfAppText text => match blf_apptext_msg (expand text) with Ok m => Ok (Some m) | Panic s => Panic s | OutOfFuel => OutOfFuel end
+  | PCanFrame id data => Ok (Some (can_frame_msg id (expand data)))
+  | PAnon be verbose noar payload rt =>
+      Ok (Some (anon_msg {| m_be := be; m_verbose := verbose; m_noar := noar; m_payload := expand payload |} rt))
+  | PTextLog => Ok (Some textline_log_msg)
+  | PApidInfo skip_empty apid desc =>
+      if skip_empty && (plen (expand desc) =? 0) then Ok None else Ok (Some (apid_info_msg apid (expand desc)))
+  end.
+
+(* encoder output, and the message handed to the decoder: (verbose, big endian, payload) *)
+Definition encode (c_verbose c_be : bool) (e : enc_in) : otree * option (bool * bool * bytes) :=
   match e with
-  | EPayload s => (T [], Some (expand s))
-  | EFromArgs args => let p := payload_from_args (map mk_arg args) in (o_bytes p, Some p)
+  | EPayload s => (T [], Some (c_verbose, c_be, expand s))
+  | EFromArgs args => let p := payload_from_args (map mk_arg args) in (o_bytes p, Some (c_verbose, c_be, p))
   | ESerde vals =>
       match dlt_args (map sv_of vals) with
-      | SOk (n, p) => (T [L 0; L (trunc 8 n); o_bytes p], Some p)
+      | SOk (n, p) => (T [L 0; L (trunc 8 n); o_bytes p], Some (c_verbose, c_be, p))
       | SErr k => (T [L 1; L k], None)
+      end
+  | EProduced pr =>
+      (* the built message is decoded with the flags IT carries *)
+      match produce pr with
+      | Ok (Some m) => (T [L 2; ob (m_be m); ob (m_verbose m); L (m_noar m); o_bytes (m_payload m)],
+                        Some (m_verbose m, m_be m, m_payload m))
+      | Ok None => (T [L 3], None)
+      | Panic _ => (T [L 7], None)
+      | OutOfFuel => (T [L 8], None)
       end
   end.
 
@@ -109,15 +142,15 @@ Definition o_next (r : res (option arg * iter)) : otree * iter :=
   end.
 
 Definition run_C18 (c : case_C18) : otree :=
-  match encode (c_enc c) with
+  match encode (c_verbose c) (c_be c) (c_enc c) with
   | (eo, None) => T [eo]
-  | (eo, Some p0) =>
+  | (eo, Some (verbose, be, p0)) =>
       let p := apply_cut (apply_patch p0 (c_patch c)) (c_cut c) in
-      match msg_args_st (c_verbose c) (c_be c) p with
+      match msg_args_st verbose be p with
       | Ok (args, it) =>
           let text :=
-            if c_verbose c then
-              match payload_text (x_fdisp32 (c_orc c)) (x_fdisp64 (c_orc c)) (x_lossy (c_orc c)) (x_w1252 (c_orc c)) (c_be c) p with
+            if verbose then
+              match payload_text (x_fdisp32 (c_orc c)) (x_fdisp64 (c_orc c)) (x_lossy (c_orc c)) (x_w1252 (c_orc c)) be p with
               | Ok t => T [L 0; o_bytes t]
               | Panic _ => T [L 1]
               | OutOfFuel => T [L 2]
